@@ -178,15 +178,8 @@ def step (st : St) (op impl : String) : St × Verdict :=
     | some cw, .ok fs =>
       let model := sortBy (fun a b => rFID a.id < rFID b.id) (world (cw.map u) fs)
       let tol := if kind == "mem" then 0 else 1
-      -- known finding `way-with-point-key`: exactly the paths of the ways in that class are missing
-      let dropped := (st.es.filter pointKeyWay).map fun e => match e with
-        | .way id _ _ => pathID id
-        | _ => pathID 0
       match parseImpl impl with
-      | some ifs =>
-        if !dropped.isEmpty && listEq (exact tol) ifs (model.filter fun f => !dropped.contains f.id) then
-          (st, .propfail "way-dropped class=way-with-point-key")
-        else (st, judge true tol ifs model)
+      | some ifs => (st, judge true tol ifs model)
       | none => (st, .propfail "rules")
     | _, _ => (st, .bad)
   | ["key", k] =>
